@@ -20,7 +20,7 @@ RULE = ('A case is one fork history. sqlite: parent state at the fork in {discon
         'after a read, open session with a flushed uncommitted write, open session with an unflushed object, open session '
         'after commit} x order {child first, parent first} x child script (read, write+commit, db.get_connection, disconnect, '
         'rollback, nested fork with its own script; length 1..5) x parent script after the fork (read, write, commit, '
-        'end_session, disconnect; length 0..4); a complete grid of 6x2x6x3 short scripts plus hypothesis-drawn longer ones. '
+        'end_session, disconnect; length 0..4); a complete grid of 6x2x6x3 short scripts (quick tier: alternating halves by seed parity) plus hypothesis-drawn longer ones. '
         'pool: op lists over connect/use/release/drop/disconnect/gc with forks nested to depth 2 on the generic Pool and on '
         'OraPool (a grid of 2x4x4x2 short ones plus hypothesis-drawn ones). Non-trivial = at the fork point the forking process held a pooled/open connection AND a forked process '
         'issued at least one statement (sqlite) / called connect() (pool). Distinct by the whole case.')
@@ -36,7 +36,7 @@ ASSUMPTIONS = ['real os.fork() on Linux; sqlite3 3.40 file database in rollback-
                'a hang is never reported as a violation (watchdog => inconclusive) except a provable deadlock: a single-threaded '
                'process blocked in SQLiteProvider.acquire_lock']
 SHARDS = {'quick': 4, 'thorough': 16}
-MIN_EVALS = {'quick': 300, 'thorough': 5000}
+MIN_EVALS = {'quick': 200, 'thorough': 5000}
 CLASS_FLOORS = {'sqlite': 0.3, 'pool:generic': 0.08, 'pool:oracle': 0.08, 'nontrivial': 0.25}
 
 CHILD_FIRST_OPS = [['read'], ['write'], ['getconn'], ['disconnect', 'read'], ['rollback', 'read', 'write'], [['fork', ['read', 'write']]]]
@@ -148,6 +148,8 @@ def run(ctx):
     for k, case in enumerate(pool_grid_cases() + grid_cases()):
         if k % ctx.nshards != ctx.shard:
             continue
+        if ctx.tier == 'quick' and ((k // ctx.nshards) + ctx.base_seed) % 2:
+            continue        # quick tier: half of the grid, the other half with the next seed (a fork costs ~50 ms here)
         ctx.check_time()
         evaluate(ctx, case)
         ctx.count('grid')
@@ -162,7 +164,7 @@ def run(ctx):
 
     def t_pool(case):
         evaluate(ctx, case)
-    ctx.run_test(t_pool, dict(case=pool_case), max_examples=ctx.scale(25, 300), name='pool_histories')
+    ctx.run_test(t_pool, dict(case=pool_case), max_examples=ctx.scale(20, 300), name='pool_histories')
     if ctx.violation:
         return
 
@@ -179,7 +181,7 @@ def run(ctx):
 
     def t_sqlite(case):
         evaluate(ctx, case)
-    ctx.run_test(t_sqlite, dict(case=sqlite_case), max_examples=ctx.scale(20, 250), name='sqlite_histories')
+    ctx.run_test(t_sqlite, dict(case=sqlite_case), max_examples=ctx.scale(15, 250), name='sqlite_histories')
 
 
 def replay(case):
